@@ -53,7 +53,10 @@ RULE = (
 TRUSTED = [
     "translator harness/props/C10.py: file contents of std/_json_defs/**/*.json and specification/std_extensions/** as Lean "
     "string literals (UTF-8 decoded; a file that is not valid UTF-8 is a translator problem) -> Gen/StdExtFiles.lean; names "
-    "and declared parameters of every type / operation definition of the bundled documents -> Gen/StdDefs.lean",
+    "and declared parameters of every type / operation definition of the bundled documents -> Gen/StdDefs.lean; every "
+    "bundled document as a JSON term (json.loads, members in file order) -> Gen/StdExtDocs.lean (the kernel checks that "
+    "each term loads and yields exactly the StdDefs entry; that the term is the parse of the string literal is the "
+    "translator's, cross-checked by the `file` cases, which send json.loads of the same file to the model)",
     "pydantic model_dump_json / model_validate_json are the encoder / structural decoder; semver parsing and printing of "
     "the version string belongs to the semver package (the model carries the version as text)",
     "value layer: `decVal (encVal v)` re-encodes to the same document for the values of the extension — hypothesis `ValRT` "
@@ -224,7 +227,8 @@ def translate(repo: Path, gen_dir: Path) -> list[str]:
     # ---- definitions (names + declared parameters) of the bundled documents
     defs = [HEADER, "import HugrVerif.Ext", "namespace HugrVerif.Gen.StdDefs", "open HugrVerif HugrVerif.Ext", ""]
     entries = []
-    for name, p in bf.items():
+    for name in sorted(bf):
+        p = bf[name]
         try:
             doc = json.loads(p.read_text())
             tys_ = [
@@ -247,7 +251,64 @@ def translate(repo: Path, gen_dir: Path) -> list[str]:
     defs.append("def table : List ExtSig := [\n" + ",\n".join(entries) + "]")
     defs.append("end HugrVerif.Gen.StdDefs")
     _write_if_changed(gen_dir / "StdDefs.lean", "\n".join(defs) + "\n")
+
+    # ---- the bundled documents as JSON terms, each with the kernel-checked theorem that it loads
+    docs = [HEADER, "import HugrVerif.Ext", "import HugrVerif.Gen.StdDefs", "namespace HugrVerif.Gen.StdExtDocs",
+            "open HugrVerif", ""]
+    thms = ["namespace HugrVerif.Props.C10.gen", "open HugrVerif HugrVerif.Ext HugrVerif.Gen", ""]
+    listed = []
+    for name in sorted(bf):
+        p = bf[name]
+        i = ident(name)
+        try:
+            doc = json.loads(p.read_text())
+            term = lterm(doc)
+        except Exception as e:  # noqa: BLE001
+            problems.append(f"{name}: cannot translate document: {e!r}"[:300])
+            continue
+        docs.append(f"/-- hugr-py/src/hugr/std/_json_defs/{name} as a JSON value (object members in file order) -/")
+        docs.append(f"def doc_{i} : Json := {term}")
+        listed.append((name, i))
+        thms.append(f"/-- `{name}` loads (`_load_extension`), and the loaded extension holds exactly the definitions")
+        thms.append("    `StdDefs.table` lists for it (names and declared parameters). -/")
+        thms.append(f"theorem bundled_loads_{i} : loadsFrom StdDefs.table {DOC_FUEL} StdExtDocs.doc_{i} = true := by decide +kernel")
+    docs.append("def docs : List (String × Json) := [" + ", ".join(f"({lstr(n)}, doc_{i})" for n, i in listed) + "]")
+    docs.append("end HugrVerif.Gen.StdExtDocs")
+    docs.append("")
+    thms.append("/-- every bundled document loads and yields its `StdDefs.table` entry -/")
+    thms.append("theorem bundled_loads_all : StdExtDocs.docs.all (fun nd => loadsFrom StdDefs.table "
+                f"{DOC_FUEL} nd.2) = true := by")
+    thms.append("  simp only [StdExtDocs.docs, List.all_cons, List.all_nil, Bool.and_true, Bool.and_self"
+                + "".join(f", bundled_loads_{i}" for _, i in listed) + "]")
+    thms.append("end HugrVerif.Props.C10.gen")
+    _write_if_changed(gen_dir / "StdExtDocs.lean", "\n".join(docs + thms) + "\n")
     return problems
+
+
+DOC_FUEL = 64
+
+
+def lterm(j) -> str:
+    """JSON value -> Lean `Json` term (object members in document order)"""
+    if j is None:
+        return "Json.null"
+    if j is True:
+        return "Json.bool true"
+    if j is False:
+        return "Json.bool false"
+    if isinstance(j, int):
+        return f"Json.int {j}" if j >= 0 else f"Json.int ({j})"
+    if isinstance(j, float):
+        if j.is_integer() and abs(j) < 1e15:
+            return lterm(int(j))
+        return f"Json.num {lstr(repr(j))}"
+    if isinstance(j, str):
+        return f"Json.str {lstr(j)}"
+    if isinstance(j, list):
+        return "Json.arr [" + ", ".join(lterm(x) for x in j) + "]"
+    if isinstance(j, dict):
+        return "Json.obj [" + ", ".join(f"({lstr(k)}, {lterm(v)})" for k, v in j.items()) + "]"
+    raise TypeError(type(j))
 
 
 # ----------------------------------------------------------------------------- generation
@@ -318,13 +379,13 @@ def gen_program(rng):
             steps.append(["op", n, rng.choice(DESCS), _gen_misc(rng), sig, rng.random() < 0.25, asfn])
         elif r < 0.72:
             steps.append(["op", n, rng.choice(DESCS), _gen_misc(rng), None, True, False])
-        elif r < 0.75:
+        elif r < 0.735:
             steps.append(["op", n, rng.choice(DESCS), _gen_misc(rng), None, False, False])  # ValueError
         else:
             rs = rng.random()
             if rs < 0.4:
                 rsig = ["sig", rng.choice([None, _gen_sig_poly(rng, name)]), rng.random() < 0.5]
-                if rsig[1] is None and not rsig[2] and rng.random() < 0.8:
+                if rsig[1] is None and not rsig[2] and rng.random() < 0.9:
                     rsig[2] = True
             elif rs < 0.6:
                 rsig = None
@@ -347,7 +408,7 @@ MUTATIONS = [
     ["del", "version"], ["del", "name"], ["del", "runtime_reqs"], ["del", "types"], ["del", "values"], ["del", "operations"],
     ["op", "del", "extension"], ["op", "del", "name"], ["op", "del", "description"], ["op", "del", "misc"],
     ["op", "del", "signature"], ["op", "del", "binary"], ["op", "del", "lower_funcs"], ["op", "set", "misc", None],
-    ["op", "set", "signature", None], ["op", "set", "name", "other"], ["op", "set", "binary", "yes"], ["op", "set", "misc", [1]],
+    ["op", "set", "signature", None], ["op", "set", "name", "other"], ["op", "set", "binary", [True]], ["op", "set", "misc", [1]],
     ["op", "set", "extension", "someone.else"], ["op", "set", "unknown_member", 1],
     ["type", "del", "bound"], ["type", "del", "params"], ["type", "set", "name", "other"], ["type", "bound-del", "b"],
     ["type", "set", "bound", {"b": "Nope"}], ["type", "set", "extension", "someone.else"],
@@ -370,6 +431,45 @@ def _helper_cases(rng, n_random):
     for t in ("@qubit", "@usize", ["@unit", 2], ["@sum", [["@qubit"], []]], ["@var", 0, "@A"], ["@var", 1, "@C"]):
         out += [["array", t, 3], ["list", t], ["sarray", t], ["sarrayval", t]]
     return [{"k": "helper", "h": h} for h in out]
+
+
+_INT = ["@ext", ["@def", "arithmetic.int.types", "int", "integral value of a given bit width", [["@pnat", 7]], ["@explicit", "@C"]],
+        [["@nat", 5]]]
+
+
+def corpus():
+    """fixed regression cases, run first"""
+    return [
+        # the owner already among the requirements (twice), a repeated requirement of the extension itself
+        {"k": "ext", "name": "my.ext", "version": "1.2.3-rc.1+b7", "reqs": ["prelude", "a", "prelude"], "mut": None, "steps": [
+            ["op", "op", "desc", {"k": [1, 2.5, None, {"z": True}]},
+             ["@poly", [["@ptype", "@A"]], ["@qubit", _INT], [["@unit", 2], ["@fn", ["@usize"], [], ["z", "y"]]], ["my.ext", "x", "my.ext"]],
+             False, False]]},
+        # the same name added twice (dict overwrite), binary with and without type scheme, a plain FunctionType
+        {"k": "ext", "name": "e", "version": "0.1.0", "reqs": [], "mut": None, "steps": [
+            ["op", "o", "first", {}, ["@poly", [], ["@qubit"], ["@qubit"], []], False, True],
+            ["op", "o", "second", {"m": 1}, None, True, False],
+            ["op", "p", "", {}, ["@poly", [], [], [], ["other"]], True, False],
+            ["type", "T", "", [["@ptype", "@A"], ["@pnat", 3]], ["@from", 0]],
+            ["type", "T", "again", [], ["@explicit", "@C"]]]},
+        # register_op: class name / docstring defaults, a given description is not used, OpDefSig passed through
+        {"k": "ext", "name": "logic", "version": "0.1.0", "reqs": [], "mut": None, "steps": [
+            ["regop", "_NotOp", "Logical NOT.", None, ["@poly", [], [["@unit", 2]], [["@unit", 2]], []], None, None],
+            ["regop", "Cls", "doc", "And", None, "given", {"commutative": True}],
+            ["regop", "Cls", None, "Or", ["sig", None, True], None, None]]},
+        # values: std constants come back as plain extension constants, a function constant
+        {"k": "ext", "name": "x-y_z", "version": "0.0.0", "reqs": ["ext.β"], "mut": None, "steps": [
+            ["value", "TRUE", ["@bool", True]], ["value", "i", ["@int", 7, 5]],
+            ["value", "arr", ["@array", [["@int", 1, 3], ["@int", 2, 3]], ["@ext", _INT[1], [["@nat", 3]]]]],
+            ["value", "f", ["@fndfg", ["@qubit", ["@unit", 2]], [1, 0], []]]]},
+        # OpDefSig(None, False)
+        {"k": "ext", "name": "e", "version": "0.1.0", "reqs": [], "mut": None, "steps": [["op", "o", "", {}, None, False, False]]},
+        # faults in the document
+        {"k": "ext", "name": "e", "version": "0.1.0", "reqs": [], "mut": ["op", "set", "signature", None],
+         "steps": [["op", "o", "", {}, ["@poly", [], [], [], []], False, False]]},
+        {"k": "ext", "name": "e", "version": "0.1.0", "reqs": [], "mut": ["op", "set", "name", "other"],
+         "steps": [["op", "o", "", {}, None, True, False]]},
+    ]
 
 
 def file_names():
